@@ -59,7 +59,7 @@ def run(ctx):
             shutil.copy(f, os.path.join(overlay, DIR))
         shutil.copy(gen, os.path.join(overlay, DIR, "Generated.v"))
         shutil.copy(os.path.join(lib.COQ, "Properties", "C19.v"), os.path.join(overlay, "Properties"))
-        for f in ["GoInt", "Spec", "WrapLemmas", "Generated", "Corr", "Proofs"]:
+        for f in ["GoInt", "Spec", "WrapLemmas", "Generated", "GeneratedPinned", "Corr", "Proofs", "Sweep8"]:
             rc, o = ctx.coqc(os.path.join(overlay, DIR, f + ".v"), timeout=900, extra_q=[(overlay, "Verif")], cwd=overlay)
             if rc != 0:
                 proof_ok = False
